@@ -122,6 +122,37 @@ def run(ctx, chk):
                     chk.ob(cnt == want, "C14/count/%d/%s/%s" % (t, nb if nb < 10 ** 6 else "large", cnt),
                            "type %d [%s]: %s elements reported at %s bytes, %s complete elements are present" % (t, cfg, cnt, nb, want),
                            sample={"type": t, "bytes": nb, "elements": cnt})
+        # ---- formulas that hold at *every* length (not only the legal ones)
+        for t in (5, 12, 14, 16):
+            for o in by_type.get(t, []):
+                if not o.ok:
+                    continue
+                _, struct, sterm = unwrap_message(o.term)
+                flat = flatten(sterm)
+                sh = infer_shape(struct, flat, o)
+                nset = o.nset()
+                probes = list(nset.values()) if nset.size() <= 64 else [nset.min(), nset.min() + 1, nset.min() + 7, 200, 1000]
+                for nb in probes:
+                    bits = 8 * nb
+                    if t == 5:
+                        chars = min(120, bits - 302) // 6
+                        dte = bits - 302 - 6 * chars >= 1
+                        chk.ob(sh["dest_chars"] == chars and sh["dte_present"] == dte, "C14/type5/%d/chars=%s/dte=%s" % (nb, sh["dest_chars"], sh["dte_present"]),
+                               "type 5 [%s] at %d bytes: destination has %s characters and DTE is %s; %d complete characters are present and DTE is %s" % (
+                                   cfg, nb, sh["dest_chars"], "read" if sh["dte_present"] else "defaulted", chars, "present" if dte else "missing"),
+                               sample={"type": 5, "bytes": nb, "destination_chars": chars, "dte_present": dte})
+                    elif t == 16:
+                        want = bits - 92 >= 52
+                        chk.ob(sh["second"] == want, "C14/type16/%d/%s" % (nb, sh["second"]), "type 16 [%s] at %d bytes: second station %s, expected %s" % (cfg, nb, sh["second"], want))
+                    else:
+                        head = 72 if t == 12 else 40
+                        tc = text_chars(flat.get("text"))
+                        want = (bits - head) // 6
+                        got = None
+                        if tc is not None:
+                            nn = tc[1]
+                            got = nn if isinstance(nn, int) else (want if nn == ("fdiv", ("lin", ((("len", "P"), 8),), -head), 6) else None)
+                        chk.ob(got == want, "C14/text/%d/%d/%s" % (t, nb, got), "type %d [%s] at %d bytes: text has %s characters, %d complete characters are present" % (t, cfg, nb, got, want))
     chk.cov["configs"] = cfgs
     chk.cov["programs"] = len(cfgs)
     chk.cov["signatures_checked"] = n_sig
